@@ -232,6 +232,13 @@ func (d *dcx) hook(e ast.Expr) (string, bool) {
 			return "(optNaN json." + f + ")", true
 		}
 	}
+	// `f == x` on a float that may still hold NaN is false when it does (NaN equals nothing)
+	if be, ok := e.(*ast.BinaryExpr); ok && be.Op == token.EQL {
+		if f, ok := selfField(be.X, d.recv); ok && d.nanable[f] {
+			d.note(be.X, f)
+			return "(optEq json." + f + " " + d.t.expr(be.Y) + ")", true
+		}
+	}
 	if f, ok := selfField(e, d.recv); ok {
 		d.note(e, f)
 		if d.nanable[f] {
@@ -320,8 +327,10 @@ func (t *tr) genDeriveConstants(b *strings.Builder) {
 	t.hook = d.hook
 	defer func() { t.hook = old }()
 	type piece struct {
-		core bool
-		text string
+		core  bool
+		text  string
+		steps []string // one translated top-level statement each
+		srcs  []string
 	}
 	var pieces []piece
 	for _, s := range fd.Body.List {
@@ -344,12 +353,13 @@ func (t *tr) genDeriveConstants(b *strings.Builder) {
 		}()
 		if ok {
 			if n := len(pieces); n > 0 && pieces[n-1].core {
-				pieces[n-1].text += txt
+				pieces[n-1].steps = append(pieces[n-1].steps, txt)
+				pieces[n-1].srcs = append(pieces[n-1].srcs, t.srcText(s))
 			} else {
-				pieces = append(pieces, piece{true, txt})
+				pieces = append(pieces, piece{core: true, steps: []string{txt}, srcs: []string{t.srcText(s)}})
 			}
 		} else {
-			pieces = append(pieces, piece{false, t.srcText(s)})
+			pieces = append(pieces, piece{core: false, text: t.srcText(s)})
 		}
 	}
 	fmt.Fprintf(b, "/-! ## DeriveConstants (%s) -/\n\n", t.p.fset.Position(fd.Pos()))
@@ -358,6 +368,7 @@ func (t *tr) genDeriveConstants(b *strings.Builder) {
 		fl = append(fl, f)
 	}
 	sort.Strings(fl)
+	b.WriteString("/-- `f == x` for a float that may still hold the NaN `NewSR` left: false then (a NaN equals nothing) -/\ndef optEq {α : Type} [RNum α] (o : Option α) (x : α) : Bool := match o with | none => false | some v => RNum.eq v x\n\n")
 	b.WriteString("/-- the float64/bool fields of `*SR` that the translated statements of `DeriveConstants` read or write;\n    a float the function tests with `math.IsNaN` is an `Option` (`none` = the NaN `NewSR` left) -/\nstructure DC (α : Type) where\n")
 	for _, f := range fl {
 		ty := "α"
@@ -375,7 +386,12 @@ func (t *tr) genDeriveConstants(b *strings.Builder) {
 		if p.core {
 			nc++
 			name := fmt.Sprintf("DeriveConstants_core%d", nc)
-			fmt.Fprintf(b, "/-- translated run of statements #%d of `DeriveConstants` -/\ndef %s {α : Type} [RTrans α] (json : DC α) : DC α :=\n%s  json\n\n", nc, name, p.text)
+			comp := "json"
+			for i, st := range p.steps {
+				fmt.Fprintf(b, "/-- `%s` -/\ndef %s_s%d {α : Type} [RTrans α] (json : DC α) : DC α :=\n%s  json\n\n", strings.ReplaceAll(p.srcs[i], "-/", "- /"), name, i+1, st)
+				comp = fmt.Sprintf("%s_s%d (%s)", name, i+1, comp)
+			}
+			fmt.Fprintf(b, "/-- translated run of statements #%d of `DeriveConstants`: its %d top-level statements in order -/\ndef %s {α : Type} [RTrans α] (json : DC α) : DC α :=\n  %s\n\n", nc, len(p.steps), name, comp)
 			shape = append(shape, "«"+name+"»")
 		} else {
 			shape = append(shape, p.text)
